@@ -1193,7 +1193,9 @@ static void struct_initializer1(Token **rest, Token *tok, Initializer *init) {
 
 // struct-initializer2 = initializer ("," initializer)*
 static void struct_initializer2(Token **rest, Token *tok, Initializer *init, Member *mem) {
-  bool first = true;
+  // When the walk continues behind a designated member (mem is not the
+  // first member) the next initializer is preceded by a comma.
+  bool first = (mem == init->ty->members);
 
   for (; mem && !is_end(tok); mem = mem->next) {
     Token *start = tok;
